@@ -29,10 +29,10 @@ def fvec? (s : String) : Option (Array Float) := (parseList? fbits? s).map List.
 def fmat? (s : String) : Option (Array (Array Float)) :=
   if s = "-" then some #[] else ((s.splitOn ";").mapM fvec?).map List.toArray
 
-def vecOf (n : Nat) (a : Array Float) : Vec Float n := fun i => a[i.1]!
+def vecOf (n : Nat) (a : Array Float) : Vec Float n := Vector.ofFn fun i => a[i.1]!
 
 def matVec (n : Nat) (A : Array (Array Float)) (v : Vec Float n) : Vec Float n :=
-  tab1 fun i => sumFin n fun j => (A[i.1]!)[j.1]! * v j
+  Vector.ofFn fun i => sumFin n fun j => (A[i.1]!)[j.1]! * v[j]
 
 def showMatF {n m : Nat} (A : Mat Float n m) : String :=
   if n = 0 ∨ m = 0 then "-" else ";".intercalate (A.toLists.map (showList showF))
